@@ -212,12 +212,16 @@ def padLoop (tr : List W32 → List UInt8 → List W32) : Nat → Ck → Nat →
       padLoop tr fuel { ck with buf := ck.buf.set pos 0 } (pos + 1)
     else ck
 
+/-- `check->state.sha256.size *= 8` (uint64_t): the message length in bits that `lzma_sha256_finish` stores as ONE
+    64-bit big-endian integer in `buffer.u64[7]`. -/
+def lengthBitsC (size : Nat) : Nat := size * 8 % 2 ^ 64
+
 /-- `lzma_sha256_finish`; the digest is the first 32 bytes of the returned buffer. -/
 def finishC (tr : List W32 → List UInt8 → List W32) (ck : Ck) : Ck :=
   let pos := ck.size % 64
   let ck := { ck with buf := ck.buf.set pos 0x80 }
   let ck := padLoop tr 128 ck (pos + 1)
-  let ck := { ck with size := ck.size * 8 % 2 ^ 64 }
+  let ck := { ck with size := lengthBitsC ck.size }
   -- check->buffer.u64[(64 - 8) / 8] = conv64be(check->state.sha256.size);
   let ck := { ck with buf := ck.buf.take 56 ++ be64bytes ck.size }
   let ck := processC tr ck
